@@ -11,6 +11,9 @@ import Mathlib.Tactic.FieldSimp
 import Mathlib.Tactic.Positivity
 import Mathlib.Data.List.GetD
 import Mathlib.Analysis.SpecialFunctions.Trigonometric.Arctan
+import Mathlib.Analysis.SpecialFunctions.Trigonometric.ArctanDeriv
+import Mathlib.Analysis.Calculus.Deriv.MeanValue
+import Mathlib.Analysis.Calculus.Deriv.Pow
 /-! Helper lemmas for C19, trajectory part (statistics, association, alignment, pose errors, geodesic). -/
 namespace PP.Traj
 open PP
@@ -787,5 +790,236 @@ theorem argmin?_spec (l : List ℝ) (v : ℝ) (j : Nat) (h : argmin? l = some (v
       rcases List.mem_cons.mp hy with rfl | hy
       · exact h1
       · exact h2 y hy
+
+/-! ## a rigid motion applied to both trajectories (pass 3) -/
+
+/-- a pose as a similarity with unit scale -/
+noncomputable def rigidSim (G : SE3 ℝ) : Sim3 ℝ := ⟨G.t, G.q, 1⟩
+
+theorem rigidSim_valid (G : SE3 ℝ) (hG : SE3.Valid G) : Sim3.Valid (rigidSim G) := ⟨hG, by simp [rigidSim]⟩
+
+theorem Sim3Act_rigid (G : SE3 ℝ) (p : Vec3 ℝ) : Sim3Act (rigidSim G) p = SE3Act G p := by
+  unfold Sim3Act SE3Act rigidSim; ext <;> simp [Vec3.add, Vec3.smul]
+
+theorem Sim3Inv_rigid (G : SE3 ℝ) : Sim3Inv (rigidSim G) = rigidSim (SE3Inv G) := by
+  unfold Sim3Inv rigidSim SE3Inv
+  ext1
+  · simp only [k_real, Nat.cast_one, div_one]; ext <;> simp [Vec3.neg, Vec3.smul]
+  · rfl
+  · simp
+
+theorem Sim3Equiv.symm {X Y : Sim3 ℝ} (h : Sim3Equiv X Y) : Sim3Equiv Y X := by
+  obtain ⟨a, b, c⟩ := h
+  refine ⟨a.symm, b.symm, ?_⟩
+  rcases c with c | c
+  · exact Or.inl c.symm
+  · right; rw [c, Spline.Quat.neg_neg']
+
+theorem SE3Act_sub_normSq (G : SE3 ℝ) (hG : SE3.Valid G) (a b : Vec3 ℝ) :
+    ((SE3Act G a).sub (SE3Act G b)).normSq = (a.sub b).normSq := by
+  have : (SE3Act G a).sub (SE3Act G b) = G.q.act (a.sub b) := by
+    rw [← act_sub]; unfold SE3Act; ext <;> simp [Vec3.add, Vec3.sub]
+  rw [this, Quat.act_normSq G.q hG]
+
+/-- moving the transform and the targets by the same rigid motion does not change the cost -/
+theorem cost_left_rigid (G : SE3 ℝ) (hG : SE3.Valid G) (T : Sim3 ℝ) (hT : Sim3.Valid T) (P Q : List (Vec3 ℝ)) :
+    cost (Sim3Mul (rigidSim G) T) P (Q.map (SE3Act G)) = cost T P Q := by
+  unfold cost
+  induction P generalizing Q with
+  | nil => simp
+  | cons p ps ih =>
+    cases Q with
+    | nil => simp
+    | cons q qs =>
+      simp only [List.map_cons, List.zipWith_cons_cons, List.sum_cons, ih qs]
+      rw [Sim3_act_mul _ _ (rigidSim_valid G hG) hT, Sim3Act_rigid, SE3Act_sub_normSq G hG]
+
+theorem map_SE3Act_inv (G : SE3 ℝ) (hG : SE3.Valid G) (Q : List (Vec3 ℝ)) :
+    (Q.map (SE3Act G)).map (SE3Act (SE3Inv G)) = Q := by
+  rw [List.map_map]
+  conv_rhs => rw [← List.map_id Q]
+  apply List.map_congr_left
+  intro p _
+  show SE3Act (SE3Inv G) (SE3Act G p) = id p
+  rw [← SE3_act_mul _ _ (SE3_valid_inv G hG) hG, SE3_inv_mul G hG]
+  unfold SE3Act SE3one; ext <;> lie_unfold <;> simp
+
+theorem map_SE3Act_eq (G : SE3 ℝ) (P : List (Vec3 ℝ)) : P.map (SE3Act G) = P.map (Sim3Act (rigidSim G)) := by
+  apply List.map_congr_left; intro p _; rw [Sim3Act_rigid]
+
+/-- **The optimal alignment is conjugated by a rigid motion applied to both point sets** (from optimality + uniqueness). -/
+theorem align_conj_rigid (rigid : Bool) (G : SE3 ℝ) (hG : SE3.Valid G) (T T' : Sim3 ℝ) (P Q : List (Vec3 ℝ))
+    (h1 : AlignOK rigid T P Q) (h2 : AlignOK rigid T' (P.map (SE3Act G)) (Q.map (SE3Act G))) :
+    Sim3Equiv T' (Sim3Mul (Sim3Mul (rigidSim G) T) (Sim3Inv (rigidSim G))) := by
+  have hGs := rigidSim_valid G hG
+  have hGi := Sim3_valid_inv _ hGs
+  have hGiv : SE3.Valid (SE3Inv G) := SE3_valid_inv G hG
+  have hX : Sim3.Valid (Sim3Mul (Sim3Mul (rigidSim G) T) (Sim3Inv (rigidSim G))) :=
+    Sim3_valid_mul _ _ (Sim3_valid_mul _ _ hGs h1.valid) hGi
+  -- cost of the conjugated transform on the moved sets = cost of T on the original sets
+  have hcX : cost (Sim3Mul (Sim3Mul (rigidSim G) T) (Sim3Inv (rigidSim G))) (P.map (SE3Act G)) (Q.map (SE3Act G))
+      = cost T P Q := by
+    rw [map_SE3Act_eq G P, ← cost_map_act _ _ (Sim3_valid_mul _ _ hGs h1.valid) hGi, map_act_inv _ hGs,
+      cost_left_rigid G hG T h1.valid]
+  -- the pulled-back T' is a competitor on the original sets
+  have hY : Sim3.Valid (Sim3Mul (Sim3Mul (rigidSim (SE3Inv G)) T') (rigidSim G)) :=
+    Sim3_valid_mul _ _ (Sim3_valid_mul _ _ (rigidSim_valid _ hGiv) h2.valid) hGs
+  have hcY : cost (Sim3Mul (Sim3Mul (rigidSim (SE3Inv G)) T') (rigidSim G)) P Q
+      = cost T' (P.map (SE3Act G)) (Q.map (SE3Act G)) := by
+    rw [← cost_map_act _ _ (Sim3_valid_mul _ _ (rigidSim_valid _ hGiv) h2.valid) hGs, ← map_SE3Act_eq]
+    have := cost_left_rigid (SE3Inv G) hGiv T' h2.valid (P.map (SE3Act G)) (Q.map (SE3Act G))
+    rw [map_SE3Act_inv G hG] at this
+    exact this
+  have hopt := h1.optimal _ hY (by
+    intro hr
+    show 1 * T'.s * 1 = 1
+    rw [h2.scale_one hr]; ring)
+  apply Sim3Equiv.symm
+  apply h2.unique _ hX
+  · intro hr
+    show 1 * T.s * (k 1 / 1) = 1
+    rw [h1.scale_one hr]; simp
+  · rw [hcX, ← hcY]; exact hopt
+
+theorem zipWith_congr_mem {β γ δ : Type} (f f' : β → γ → δ) (l : List β) (m : List γ)
+    (h : ∀ a ∈ l, ∀ b ∈ m, f a b = f' a b) : List.zipWith f l m = List.zipWith f' l m := by
+  induction l generalizing m with
+  | nil => simp
+  | cons a l ih =>
+    cases m with
+    | nil => simp
+    | cons b m =>
+      simp only [List.zipWith_cons_cons]
+      rw [h a (by simp) b (by simp), ih m (fun a' ha' b' hb' => h a' (by simp [ha']) b' (by simp [hb']))]
+
+/-- the absolute error is unchanged when reference and estimate are moved by the same rigid motion -/
+theorem apeErr_left_invariant (eps atol : ℝ) (et : EType) (G r e : SE3 ℝ) (hG : SE3.Valid G) (he : SE3.Valid e) :
+    apeErr eps atol et (SE3Mul G r) (SE3Mul G e) = apeErr eps atol et r e := by
+  unfold apeErr
+  rw [Spline.SE3_rel_left_invariant G e r hG he]
+  have : ((SE3Mul G e).t.sub (SE3Mul G r).t).norm = (e.t.sub r.t).norm := SE3Act_sub_norm G hG e.t r.t
+  rw [this]
+
+/-- reduction used for every alignment mode: if aligning `G·e` with `T'` is (as a transformation) `G·(align T e)`, the
+error lists of the moved and the original trajectories coincide -/
+theorem apeCore_left_of (eps atol : ℝ) (et : EType) (G : SE3 ℝ) (hG : SE3.Valid G) (T T' : Sim3 ℝ) (hT : Sim3.Valid T)
+    (rp ep : List (SE3 ℝ)) (hE : ∀ e ∈ ep, SE3.Valid e)
+    (hkey : ∀ e ∈ ep, Spline.SE3Equiv (alignPose T' (SE3Mul G e)) (SE3Mul G (alignPose T e))) :
+    List.zipWith (apeErr eps atol et) (rp.map (SE3Mul G)) ((ep.map (SE3Mul G)).map (alignPose T'))
+      = List.zipWith (apeErr eps atol et) rp (ep.map (alignPose T)) := by
+  rw [List.map_map, List.zipWith_map_left, List.zipWith_map_right, List.zipWith_map_right]
+  apply zipWith_congr_mem
+  intro r _ e he
+  simp only [Function.comp]
+  rw [apeErr_congr eps atol et _ (hkey e he)]
+  exact apeErr_left_invariant eps atol et G r _ hG (alignPose_valid T e hT (hE e he))
+
+/-! ## relative errors of trajectories that agree as transformations (pass 3) -/
+
+theorem SE3Inv_congr {X Y : SE3 ℝ} (h : Spline.SE3Equiv X Y) : Spline.SE3Equiv (SE3Inv X) (SE3Inv Y) := by
+  unfold SE3Inv
+  refine ⟨?_, ?_⟩
+  · rcases h.2 with hq | hq <;> simp only [h.1, hq, Spline.Quat.conj_neg, Quat.neg_act]
+  · rcases h.2 with hq | hq
+    · left; simp only [hq]
+    · right; simp only [hq, Spline.Quat.conj_neg]
+
+/-- relative error of two relative poses that are the same transformation is zero -/
+theorem rpeErr_of_equiv (eps atol : ℝ) (heps : 0 ≤ eps) (hatol : atol ≤ 1) (et : EType) (x y : SE3 ℝ) (hx : SE3.Valid x)
+    (h : Spline.SE3Equiv y x) : rpeErr eps atol et x y = 0 := by
+  have hm : SE3matrix (SE3Mul (SE3Inv x) y) = SE3matrix (SE3Mul (SE3Inv x) x) :=
+    SE3matrix_congr (Spline.SE3Equiv.mul_left _ h)
+  have := rpeErr_self eps atol heps hatol et x hx
+  unfold rpeErr at this ⊢
+  rw [hm]; exact this
+
+theorem relPoses_zero (eps atol : ℝ) (heps : 0 ≤ eps) (hatol : atol ≤ 1) (et : EType) (rp : List (SE3 ℝ))
+    (hv : ∀ r ∈ rp, SE3.Valid r) (f : SE3 ℝ → SE3 ℝ) (hf : ∀ r ∈ rp, Spline.SE3Equiv (f r) r) (pairs : List (Nat × Nat)) :
+    ∀ e ∈ List.zipWith (rpeErr eps atol et) (relPoses rp pairs) (relPoses (rp.map f) pairs), e = 0 := by
+  induction pairs with
+  | nil => simp [relPoses]
+  | cons st rest ih =>
+    intro e he
+    unfold relPoses at he ih
+    simp only [List.getElem?_map] at ih
+    simp only [List.filterMap_cons, List.getElem?_map] at he
+    cases h1 : rp[st.1]? with
+    | none => simp only [h1, Option.map_none] at he; exact ih e he
+    | some a =>
+      cases h2 : rp[st.2]? with
+      | none => simp only [h1, h2, Option.map_some, Option.map_none] at he; exact ih e he
+      | some b =>
+        simp only [h1, h2, Option.map_some, List.zipWith_cons_cons, List.mem_cons] at he
+        have ha := List.mem_of_getElem? h1
+        have hb := List.mem_of_getElem? h2
+        rcases he with rfl | he
+        · apply rpeErr_of_equiv eps atol heps hatol et
+          · exact SE3_valid_mul _ _ (SE3_valid_inv _ (hv a ha)) (hv b hb)
+          · exact (Spline.SE3Equiv.mul_right (SE3Inv_congr (hf a ha)) _).trans (Spline.SE3Equiv.mul_left _ (hf b hb))
+        · exact ih e he
+
+/-! ## the small-angle branch of `SO3Log` against the true angle (pass 3) -/
+
+/-- `r − r³/3 ≤ arctan r ≤ r − r³/3 + r⁵/5` for `r ≥ 0` -/
+theorem arctan_series_bound (r : ℝ) (hr : 0 ≤ r) :
+    r - r ^ 3 / 3 ≤ Real.arctan r ∧ Real.arctan r ≤ r - r ^ 3 / 3 + r ^ 5 / 5 := by
+  have hg : ∀ x : ℝ, HasDerivAt (fun x => Real.arctan x - x + x ^ 3 / 3) (x ^ 4 / (1 + x ^ 2)) x := by
+    intro x
+    have h1 := Real.hasDerivAt_arctan x
+    have h2 : HasDerivAt (fun y => Real.arctan y - y + y ^ 3 / 3) (1 / (1 + x ^ 2) - 1 + (3 : ℕ) * x ^ (3 - 1) / 3) x :=
+      ((h1.fun_sub (hasDerivAt_id' x)).fun_add ((hasDerivAt_pow 3 x).div_const 3))
+    refine h2.congr_deriv ?_
+    have : (1 : ℝ) + x ^ 2 ≠ 0 := by positivity
+    push_cast; field_simp; ring
+  have hh : ∀ x : ℝ, HasDerivAt (fun x => x ^ 5 / 5 - (Real.arctan x - x + x ^ 3 / 3)) (x ^ 6 / (1 + x ^ 2)) x := by
+    intro x
+    have h2 : HasDerivAt (fun y => y ^ 5 / 5 - (Real.arctan y - y + y ^ 3 / 3)) ((5 : ℕ) * x ^ (5 - 1) / 5 - x ^ 4 / (1 + x ^ 2)) x :=
+      ((hasDerivAt_pow 5 x).div_const 5).fun_sub (hg x)
+    refine h2.congr_deriv ?_
+    have : (1 : ℝ) + x ^ 2 ≠ 0 := by positivity
+    push_cast; field_simp; ring
+  have mg : Monotone (fun x => Real.arctan x - x + x ^ 3 / 3) :=
+    monotone_of_deriv_nonneg (fun x => (hg x).differentiableAt) (fun x => by rw [(hg x).deriv]; positivity)
+  have mh : Monotone (fun x => x ^ 5 / 5 - (Real.arctan x - x + x ^ 3 / 3)) :=
+    monotone_of_deriv_nonneg (fun x => (hh x).differentiableAt) (fun x => by rw [(hh x).deriv]; positivity)
+  have g0 := mg hr
+  have h0 := mh hr
+  simp only [Real.arctan_zero] at g0 h0
+  norm_num at g0 h0
+  constructor <;> linarith
+
+/-- `‖SO3Log q‖` on the series branch (`|v| ≤ eps ≤ 1/2`, unit `q`) is `2(r − r³/3)` with `r = |v|/|w|` -/
+theorem SO3Log_norm_small (eps : ℝ) (q : Quat ℝ) (h1 : eps ≤ 1 / 2) (hq : q.normSq = 1) (hv : ¬ eps < q.vec.norm) :
+    (SO3Log eps q).norm = 2 * (q.vec.norm / |q.w| - (q.vec.norm / |q.w|) ^ 3 / 3) ∧ 3 / 4 ≤ |q.w| := by
+  have hrel := quat_vn_w q hq
+  have hvn0 := Vec3.norm_nonneg q.vec
+  have hvle : q.vec.norm ≤ 1 / 2 := le_trans (not_lt.mp hv) h1
+  have hform : (SO3Log eps q).norm
+      = |2 * (1 / q.w - q.vec.norm * q.vec.norm / (3 * (q.w * q.w * q.w)))| * q.vec.norm := by
+    unfold SO3Log so3LogFactor
+    rw [Vec3.norm_smul']
+    simp only [lt_real, hv, decide_false, Bool.false_eq_true, if_false, k_real, Nat.cast_ofNat, Nat.cast_one]
+  rw [hform]
+  set vn := q.vec.norm
+  set w := q.w
+  set a := |w| with ha
+  have ha0 : 0 ≤ a := abs_nonneg w
+  have ha2 : a * a = w * w := abs_mul_abs_self w
+  have haw : 3 / 4 ≤ a := by nlinarith
+  have hapos : 0 < a := by linarith
+  refine ⟨?_, haw⟩
+  have hpos : 0 ≤ 1 / a - vn * vn / (3 * (a * a * a)) := by
+    have h3 : vn * vn / (3 * (a * a * a)) ≤ 1 / a := by
+      rw [div_le_div_iff₀ (by positivity) hapos]; nlinarith
+    linarith
+  rcases abs_choice w with hw | hw
+  · have hwa : w = a := by rw [ha, hw]
+    rw [hwa, abs_of_nonneg (by linarith)]
+    field_simp
+  · have hwa : w = -a := by rw [ha, hw]; ring
+    have e : (2 : ℝ) * (1 / w - vn * vn / (3 * (w * w * w))) = -(2 * (1 / a - vn * vn / (3 * (a * a * a)))) := by
+      rw [hwa]; field_simp; ring
+    rw [e, abs_neg, abs_of_nonneg (by linarith)]
+    field_simp
 
 end PP.Traj
